@@ -21,6 +21,7 @@ lemmas, imported contracts).  Directives:
   //@canary name=must_fail_x                                    a verbatim proof fn that MUST be rejected (vacuity guard)
 """
 import json
+import os
 import re
 import time
 from pathlib import Path
@@ -237,6 +238,13 @@ class Extractor:
             elif kind == "replace":
                 replaces.append((arg, txt))
         for old, new in replaces:
+            if old.startswith("ALL:"):
+                old = old[4:]
+                if snip_count(body, old) < 1:
+                    raise vf.Undecided("lost anchor: replace-all snippet `%s` does not occur in %s" % (old, fname))
+                body = snip_re(old).sub(lambda m_: new, body)
+                self.log.append({"rule": "V5/V6", "fn": fname, "before": old + " (all occurrences)", "after": new})
+                continue
             if snip_count(body, old) != 1:
                 raise vf.Undecided("lost anchor: replace snippet `%s` occurs %d times in %s (need exactly 1)" % (old, snip_count(body, old), fname))
             body = snip_re(old).sub(lambda m_: new, body, count=1)
@@ -397,11 +405,12 @@ def run_unit(upath, meta, work: Path, logp: Path):
     (vf.VERIF / "logs").mkdir(exist_ok=True)
     (vf.VERIF / "logs" / outp.name).write_text(src)
     rlimit = meta.get("rlimit", "30")
-    cmd = ["verus", str(outp), "--output-json", "--time", "--triggers-mode", "silent", "--rlimit", rlimit, "--multiple-errors", "1"]
+    cmd = ["verus", str(outp), "--output-json", "--time", "--triggers-mode", "silent", "--rlimit", rlimit, "--multiple-errors", os.environ.get("VERUS_MULTI", "1")]
     t0 = time.time()
     rc, out, wall = vf.sh(cmd, cwd=work, timeout=int(meta.get("timeout", "900")))
     with open(logp, "a") as fh:
-        fh.write("$ " + " ".join(cmd) + "\n" + out[-30000:] + "\n")
+        cut = out.find('{\n  "func-details"')
+        fh.write("$ " + " ".join(cmd) + "\n" + (out[:cut] if cut > 0 else out[:40000]) + "\n" + out[-3000:] + "\n")
     # the JSON object is on stdout, diagnostics on stderr — both captured; locate the JSON
     jtxt = None
     k = out.find('{\n  "')
